@@ -936,6 +936,62 @@ fn untouched_e2e(prop: &str, idx: u64, root: &Path) -> CaseRec {
 }
 
 // ------------------------------------------------------------------------------------------------
+// 5. cli-update-flags-e2e: the command-line layer of `update`
+// ------------------------------------------------------------------------------------------------
+
+/// `scrut update` with the output flags of the command line (--combine-output, --no-combine-output,
+/// --keep-output-crlf) on tests with every inline `output_stream`: the document is executed, validated AND rewritten
+/// under the same effective configuration, so afterwards `scrut test` with the same flags passes and a second update
+/// with the same flags changes nothing; a test that already passes under the flags keeps its lines.
+fn update_flags_e2e(prop: &str, idx: u64, root: &Path) -> CaseRec {
+    let flags: [&[&str]; 4] = [&["--combine-output"], &["--no-combine-output"], &["--keep-output-crlf"], &[]];
+    let cfgs = ["", " {output_stream: stderr}", " {output_stream: stdout}", " {output_stream: combined}"];
+    let flag = flags[(idx % 4) as usize];
+    let cfg = cfgs[((idx / 4) % 4) as usize];
+    let written = (idx / 16) % 3; // which stream the written expectations describe: 0 stdout, 1 stderr, 2 both
+    let dir = fresh_dir(root, format!("f{idx}"));
+    let exps = match written {
+        0 => "on-out\n",
+        1 => "on-err\n",
+        _ => "on-out\non-err\n",
+    };
+    let doc = format!("# flags\n\n```scrut{cfg}\n$ echo on-out; echo on-err >&2\n{exps}```\n\nprose\n");
+    let doc_path = dir.join("doc.md");
+    std::fs::write(&doc_path, &doc).unwrap();
+    let fl: Vec<String> = flag.iter().map(|s| s.to_string()).collect();
+    // did it pass before? (then the update must not touch it)
+    let mut targs = sv(&["test"]);
+    targs.extend(fl.clone());
+    targs.push(doc_path.display().to_string());
+    let before = scrut(&dir, &dir, &targs, None);
+    let mut args = sv(&["update", "--replace", "--assume-yes"]);
+    args.extend(fl.clone());
+    args.push(doc_path.display().to_string());
+    let ran = scrut(&dir, &dir, &args, None);
+    let after = std::fs::read_to_string(&doc_path).unwrap_or_default();
+    let mut fails = vec![];
+    let describe = |what: &str| format!("{what}; `scrut {}` on {:?} -> {:?}", args.join(" "), doc, short(&after, 400));
+    if ran.code != Some(0) {
+        fails.push(("C10:cli-update-flags".to_string(), describe(&format!("update failed: {}", ran.show()))));
+    } else {
+        if before.code == Some(0) && after != doc {
+            fails.push(("C10:cli-update-flags".to_string(), describe("the test passes under these flags, its lines must be kept")));
+        }
+        let t = scrut(&dir, &dir, &targs, None);
+        if t.code != Some(0) {
+            fails.push(("C10:cli-update-flags".to_string(), describe(&format!("`scrut {}` on the updated document: {}", targs.join(" "), t.show()))));
+        }
+        let again = scrut(&dir, &dir, &args, None);
+        let now = std::fs::read_to_string(&doc_path).unwrap_or_default();
+        if again.code != Some(0) || now != after {
+            fails.push(("C10:cli-update-flags".to_string(), describe(&format!("a second update with the same flags changes the document again: {:?}", short(&now, 300)))));
+        }
+    }
+    let _ = std::fs::remove_dir_all(&dir);
+    CaseRec { op: "noop".into(), impl_out: "ok".into(), oracle_fail: keep(prop, fails), nontrivial: true, tags: vec![format!("cli-update-flags:flag={}", flag.first().copied().unwrap_or("none")), format!("cli-update-flags:passed-before={}", before.code == Some(0))] }
+}
+
+// ------------------------------------------------------------------------------------------------
 
 pub fn run(ctx: &Ctx, prop: &str) {
     let seed = ctx.seed;
@@ -952,6 +1008,7 @@ pub fn run(ctx: &Ctx, prop: &str) {
         std::fs::create_dir_all(&root).unwrap();
         ctx.run_stream("cli-update-languages-e2e-exhaustive", 4 * 6 * 4, true, |idx| Some(languages_e2e(prop, idx, &root)));
         ctx.run_stream("cli-update-untouched-e2e-exhaustive", 10, true, |idx| Some(untouched_e2e(prop, idx, &root)));
+        ctx.run_stream("cli-update-flags-e2e-exhaustive", 4 * 4 * 3, true, |idx| Some(update_flags_e2e(prop, idx, &root)));
         let _ = std::fs::remove_dir_all(&root);
     }
     let root = tmproot("update");
